@@ -9,9 +9,11 @@ Open Scope Z_scope.
 Definition small_pool (p : pool) : Prop := Z.of_nat (length (p_shards p)) <= i64_max.
 Definition small (c : config) : Prop := Forall small_pool (c_pools c).
 
-(** DefaultShard::Shard carries a usize (the model keeps Z): it is not negative. *)
+(** DefaultShard::Shard and mirroring_target_index carry a usize (the model keeps Z): they
+    are not negative. *)
 Definition typed_pool (p : pool) : Prop :=
-  match p_default_shard p with DShard d => 0 <= d | _ => True end.
+  match p_default_shard p with DShard d => 0 <= d | _ => True end /\
+  Forall (fun ks => Forall (fun m => 0 <= mi_target m) (sh_mirrors (snd ks))) (p_shards p).
 Definition typed (c : config) : Prop := Forall typed_pool (c_pools c).
 
 (** The pool built for one (pool section, user) can be addressed in every way the running
@@ -34,9 +36,14 @@ Definition servable (p : pool) (bp : built) : Prop :=
   (* selecting shard number sh reaches exactly the servers written under the key that denotes sh *)
   (forall sh, (sh < n)%nat ->
       exists k shc, In (k, shc) (p_shards p) /\ parse_usize k = Some (Z.of_nat sh) /\
-        forall r, map server_of (candidates bp (Z.of_nat sh) r)
+        (forall r, map server_of (candidates bp (Z.of_nat sh) r)
                   = filter (fun sv => role_matches r (sv_role sv)) (sh_servers shc) /\
                   get_candidates bp (Some (Z.of_nat sh)) r = Some (candidates bp (Z.of_nat sh) r)) /\
+        (* every configured mirror is attached to the server at its mirroring_target_index *)
+        (forall j m, nth_error (sh_mirrors shc) j = Some m ->
+           exists a, address_at bp sh (Z.to_nat (mi_target m)) = Some a /\
+             In {| ma_host := mi_host m; ma_port := mi_port m; ma_role := a_role a; ma_index := j;
+                   ma_replica_number := a_replica_number a; ma_shard := Z.of_nat sh |} (a_mirrors a))) /\
   (* a shard number outside the configured ones is refused, never misrouted *)
   (forall sh r, (1 < n)%nat -> Z.of_nat n <= sh -> get_candidates bp (Some sh) r = None) /\
   (* no shard selected: the configured default *)
